@@ -2238,3 +2238,39 @@ impl<const N: usize> UdpAssociateContext<N> {
         self.client_session_filter.validate_packet_id(packet_id, u64::MAX)
     }
 }
+
+//@@ octo-squirrel-client/src/client/shadowsocks.rs:40-42  mod tcp / fn new_payload_codec  sha=1f38991046ebd3b8
+fn sscli__new_payload_codec<const N: usize>(addr: &Address, config: ClientContext<N>) -> Result<sscli__PayloadCodec<N>> {
+        Ok(sscli__PayloadCodec::new(config.0, Mode::Client, Some(addr.clone())))
+    }
+
+//@@ octo-squirrel-client/src/client.rs:42-72  fn transfer_tcp  sha=053e21b3dd8afc4c
+fn transfer_tcp(listener: TcpListener, current: ServerConfig<SslConfig>) {
+    match current.protocol {
+        Shadowsocks => match current.cipher {
+            CipherKind::Aes128Gcm | CipherKind::Aead2022Blake3Aes128Gcm => {
+                tmpl__transfer_tcp(
+                    listener,
+                    current,
+                    |c| ClientContext::<16>::try_from(c),
+                    sscli__new_payload_codec::<16>,
+                )
+            }
+            CipherKind::Aes256Gcm
+            | CipherKind::Aead2022Blake3Aes256Gcm
+            | CipherKind::ChaCha20Poly1305
+            | CipherKind::Aead2022Blake3ChaCha8Poly1305
+            | CipherKind::Aead2022Blake3ChaCha20Poly1305 => {
+                tmpl__transfer_tcp(
+                    listener,
+                    current,
+                    |c| ClientContext::<32>::try_from(c),
+                    sscli__new_payload_codec::<32>,
+                )
+            }
+            CipherKind::Unknown => (),
+        },
+        VMess => tmpl__transfer_tcp(listener, current, |c| Ok((c.cipher, c.password.clone())), vmesstcp__new_codec),
+        Trojan => tmpl__transfer_tcp(listener, current, |c| Ok(c.password.clone()), trojantcp__new_codec),
+    }
+}
